@@ -13,7 +13,7 @@ theorem C07_order_decides (st : PSettings) (O : List Comp) (hO : O ∈ allOrders
     (y m d : Nat) (hy1 : 1 ≤ y) (hy2 : y ≤ 9999) (hm1 : 1 ≤ m) (hm2 : m ≤ 12) (hd1 : 1 ≤ d) (hd2 : d ≤ dim y m)
     (ty tm td : List Char) (hty : ty.length = 4) (htm : tm.length ≤ 2) (htd : td.length ≤ 2)
     (pm pd : Bool) (hpm : 10 ≤ m → pm = true) (hpd : 10 ≤ d → pd = true)
-    (mic : Option (List Char)) (dot : Bool) :
+    (mic : Comp → Option (List Char)) (dot : Bool) :
     absParseToks st (O.map (fun c => fieldTI c ty tm td y m d pm pd mic dot)) = .ok ({ y := y, mo := m, d := d }, .day) := by
   have hd31 : d ≤ 31 := Nat.le_trans hd2 (dim_le_31 _ _)
   have hm31 : m ≤ 31 := by omega
